@@ -203,7 +203,13 @@ pub fn build(name: &str) -> Hier {
             let root = ZoneDef { origin: Name::root(), keys: vec![root_key], nx: nx.clone(), records: rrec };
             trec.extend([ns("l.t."), ds_for("l.t.", ed[2], F_KSK), ns("e.t."), ds_for("e.t.", ed[3], F_KSK)]);
             let t = ZoneDef { origin: n("t."), keys: vec![(ed[1], F_KSK)], nx: nx.clone(), records: trec };
+            // (all-signed: two signed sibling delegations l.t. / e.t. under the signed t., and a signed
+            // child x.l.t. below the victim l.t. - the zones an attacker may legitimately own)
+            if name == "all-signed" {
+                lrec.extend([ns("x.l.t."), ds_for("x.l.t.", ed[5], F_KSK)]);
+            }
             let l = ZoneDef { origin: n("l.t."), keys: vec![(ed[2], F_KSK)], nx: nx.clone(), records: lrec };
+            let x = ZoneDef { origin: n("x.l.t."), keys: vec![(ed[5], F_KSK)], nx: nx.clone(), records: leaf_records("x.l.t.", 50) };
             let e = ZoneDef { origin: n("e.t."), keys: vec![(ed[3], F_KSK)], nx, records: leaf_records("e.t.", 30) };
             let mut q = std_queries("l.t.");
             if name == "apex-wildcards" {
@@ -213,6 +219,9 @@ pub fn build(name: &str) -> Hier {
                 q.retain(|x| x.0 != n("nx.l.t."));
                 q.push((n("www.t."), RecordType::A));
                 q.push((n("a.nx.l.t."), RecordType::TXT));
+            }
+            if name == "all-signed" {
+                return finish(Hierarchy::build(name, &[root, t, l, e, x], &[(0, 0)]), q, None, Some("www.e.t."));
             }
             finish(Hierarchy::build(name, &[root, t, l, e], &[(0, 0)]), q, None, Some("www.e.t."))
         }
